@@ -84,6 +84,12 @@ def header(kmin, kmax):
     for k in range(kmin, kmax + 1):
         cols = pk.OligoComputer(k).get_header()
         emit({"ev": "header", "k": k, "src": "python", "cols": [list(c.encode()) for c in cols]})
+    # several computers alive at once, asked in another order than they were made, and asked twice
+    ks = [k for k in (5, 2, 7, 3, 5, 2) if kmin <= k <= kmax]
+    objs = [(k, pk.OligoComputer(k)) for k in ks]
+    for k, o in reversed(objs):
+        for _ in range(2):
+            emit({"ev": "header", "k": k, "src": "python-interleaved", "cols": [list(c.encode()) for c in o.get_header()]})
     emit({"ev": "eof"})
 
 
@@ -121,6 +127,13 @@ def oligo(fa, kmin, kmax):
             for s in seqs:
                 text = s.decode("latin-1")   # bytes >= 0x80 become 2-byte UTF-8: non-ASCII acts as ambiguous
                 orec(k, norm, text, oc.vectorise_one(text, norm), "py")
+        # the documented default is the normalised vector (positional, keyword and batch forms)
+        for s in seqs[:6]:
+            text = s.decode("latin-1")
+            orec(k, True, text, oc.vectorise_one(text), "py-default")
+            orec(k, False, text, oc.vectorise_one(text, norm=False), "py-keyword")
+        for text, vals in zip([s.decode("latin-1") for s in seqs[:6]], oc.vectorise_batch([s.decode("latin-1") for s in seqs[:6]])):
+            orec(k, True, text, vals, "py-batch-default")
     emit({"ev": "eof"})
 
 
